@@ -149,7 +149,7 @@ Holds(p, h) ==
       [] h.par.entry = "alloc" -> C11_alloc(h)
       [] EngRun(h) -> (CASE p = "C03" -> C03_eng(h) [] p = "C05" -> C05_eng(h) [] p = "C06" -> C06_eng(h)
                           [] p = "C07" -> C07_eng(h) [] p = "C08" -> C08_eng(h) [] p = "C10" -> C10_eng(h) [] OTHER -> TRUE)
-      [] ReqRun(h) -> (CASE p = "C11" -> C11_run(h) [] p = "C15" -> C15_run(h) [] p = "C19" -> C19_run(h) [] p = "C20" -> C20_run(h) [] p = "C17" -> C17_run(h) [] OTHER -> TRUE)
+      [] ReqRun(h) -> (CASE p = "C11" -> C11_run(h) [] p = "C15" -> C15_run(h) /\ C15_samples(h) [] p = "C19" -> C19_run(h) [] p = "C20" -> C20_run(h) [] p = "C17" -> C17_run(h) [] OTHER -> TRUE)
       [] p = "C01" -> C01_run(h, s, d, hp)
       \* completeness is owed to what ARRIVED at the host: a packet the installed capture filter rejected counts as arrived
       [] p = "C02" -> C02_run(h, s, IF h.par.filter THEN SortSeq(d \o SelectSeq(h.fil, LAMBDA x : x.run = 1), LAMBDA a, b : a.n < b.n) ELSE d, hp)
